@@ -252,7 +252,8 @@ func (msg *MessageAuth) FromBytes(src []byte) error {
 		return ErrNotEnoughSourceBytes
 	}
 
-	p, q := 0, l/(MessageChunkBytesMax+2)+1
+	// number of chunks: every chunk occupies up to MessageChunkBytesMax+2 bytes (round up)
+	p, q := 0, (l+MessageChunkBytesMax+1)/(MessageChunkBytesMax+2)
 	chunks := make([]*MessageChunk, 0, q)
 	var chunk *MessageChunk
 	for i := 0; i < q; i++ {
